@@ -230,6 +230,68 @@ def pathOf (isAt : Bool) (vs : List Val) : R :=
     | none => .error .unmodelled
   | .error e => .error e
 
+
+/-! ## text, conversion and list functions
+
+DISCLOSURE: for `tolower toupper title trim replace split substr join int float string` the specification is
+the record of the function (`ScalarFn`, Asm/Data.lean: the accepted argument counts, the assertion made on
+each argument, the result as a function of the asserted values) applied to the evaluated arguments. The
+model evaluates the same record, so `evalFn_describe_text` (Props/C20.lean) says that the evaluator makes
+the assertions in the order of the Go code, stops at the first that fails and hands the asserted values on
+unchanged — what the result functions compute is stated function by function, independently of the
+records, by the closed forms `tolower_spec … string_spec` (Props/C20.lean) and compared with the
+implementation by the run. `reverse`, `append` and `include` are specified here directly.
+
+Formalisation choices: `include` compares with Go's `==` on interface values (numbers of different kinds are
+different, comparing two lists/maps is an error, reached only if no earlier element matched); `substr`
+with a start beyond the end is an error; `int` of a float truncates toward zero. -/
+
+/-- the assertions `ws` applied to the values `vs` in order; the first failure decides -/
+def acceptAll (h : Heap) : List Want → List Val → List Tree → Except Stop (List Tree)
+  | w :: ws, v :: vs, acc =>
+    match w.accept h v with
+    | .ok xs => acceptAll h ws vs (acc ++ xs)
+    | .error e => .error e
+  | _, _, acc => .ok acc
+
+/-- a text/conversion function on evaluated arguments -/
+def scalar (g : ScalarFn) (vs : List Val) : M Val := fun h =>
+  if !g.arity vs.length then (raise, h)
+  else match acceptAll h (g.wants vs.length) (if g.swap then vs.reverse else vs) [] with
+    | .error e => (.error e, h)
+    | .ok acc =>
+      match g.fin vs.length acc with
+      | .error e => (.error e, h)
+      | .ok (.arr xs) => (.ok (.aref h.length), h ++ [.arr (xs.map Tree.toVal)])
+      | .ok t => (.ok t.toVal, h)
+
+/-- `reverse`: a new array with the elements in reverse order -/
+def reverse (vs : List Val) : M Val := fun h =>
+  match vs with
+  | [.aref a] => (.ok (.aref h.length), h ++ [.arr (h.arrAt a).reverse])
+  | _ => (raise, h)
+
+/-- `append`: a new array, the second argument after the elements of the first -/
+def append (vs : List Val) : M Val := fun h =>
+  match vs with
+  | [.aref a, v] => (.ok (.aref h.length), h ++ [.arr (h.arrAt a ++ [v])])
+  | _ => (raise, h)
+
+/-- is `v1` among `xs` (Go `==`; an element of the same uncomparable kind as `v1` met before a match is an error) -/
+def includes (v1 : Val) : List Val → R
+  | [] => .ok (.bool false)
+  | m :: r =>
+    match goEq m v1 with
+    | some true => .ok (.bool true)
+    | some false => includes v1 r
+    | none => raise
+
+/-- `include`: membership in a list, or substring of a string -/
+def includ (h : Heap) : List Val → R
+  | [.aref a, v1] => includes v1 (h.arrAt a)
+  | [.str s, .str t] => .ok (.bool (containsSub s t))
+  | _ => raise
+
 /-! ## control -/
 
 /-- `cond`: the value of the first pair whose condition evaluates to `true`; `none` stands for an
@@ -297,6 +359,20 @@ def describe (dev : Dev) (f : Bytes) (vs : List Val) : M Val := fun h =>
   else if f = b!"nil?" || f = b!"null?" then (pred Val.isNull vs, h)
   else if f = b!"num?" then (pred Val.isNum vs, h)
   else if f = b!"string?" then (pred Val.isStr vs, h)
+  else if f = b!"tolower" then scalar (sfCase lowerB) vs h
+  else if f = b!"toupper" then scalar (sfCase upperB) vs h
+  else if f = b!"title" then scalar sfTitle vs h
+  else if f = b!"trim" then scalar sfTrim vs h
+  else if f = b!"replace" then scalar sfReplace vs h
+  else if f = b!"split" then scalar sfSplit vs h
+  else if f = b!"substr" then scalar sfSubstr vs h
+  else if f = b!"join" then scalar sfJoin vs h
+  else if f = b!"int" then scalar sfInt vs h
+  else if f = b!"float" then scalar sfFloat vs h
+  else if f = b!"string" then scalar sfString vs h
+  else if f = b!"reverse" then reverse vs h
+  else if f = b!"append" then append vs h
+  else if f = b!"include" then (includ h vs, h)
   else (.error .unmodelled, h)
 
 /-! ## the registry as documented
